@@ -47,6 +47,11 @@ class KernelProp(Prop):
             if op["op"] == "leak":
                 out += [{"op": "new", "t": 9000 + op["c"], "c": op["c"], "parent": op["parent"]},
                         {"op": "enter", "t": 9000 + op["c"], "c": op["c"]}]
+            elif op["op"] == "addtd" and op.get("enterSub") is not None:
+                # the first half of the @context_teardown generator enters a sub-context by hand (which stays
+                # current), then the second half is registered - on the context the function was called in
+                out += [{"op": "enter", "t": op["t"], "c": op["enterSub"], "manual": True},
+                        {k: v for k, v in op.items() if k != "enterSub"}]
             else:
                 out.append(op)
         return {"kind": "ctx", "ops": out}
@@ -55,7 +60,7 @@ class KernelProp(Prop):
         mo = list(model["out"])
         merged = []
         for op in case["ops"]:
-            if op["op"] == "leak" and len(mo) >= 2:
+            if (op["op"] == "leak" or (op["op"] == "addtd" and op.get("enterSub") is not None)) and len(mo) >= 2:
                 a, b = mo.pop(0), mo.pop(0)
                 merged.append({"res": a["res"] + b["res"], "ev": a["ev"] + b["ev"]})
             elif mo:
